@@ -181,6 +181,43 @@ func runC11(c *engine.Ctx) {
 					return ""
 				}
 			}
+			// min / max builtins clamp by construction: max(x, 0) >= 0 whatever x; min(x, MaxPoolCount) <= MaxPoolCount
+			var ul func(v ssa.Value, d int) (up, lo bool)
+			ul = func(v ssa.Value, d int) (bool, bool) {
+				v = engine.Unwrap(st.Resolve(v))
+				if z, ok := engine.ConstInt(v); ok {
+					return true, z >= 0
+				}
+				if call, ok := v.(*ssa.Call); ok && d < 4 {
+					if b, ok := call.Call.Value.(*ssa.Builtin); ok && (b.Name() == "min" || b.Name() == "max") {
+						anyUp, allUp, anyLo, allLo := false, true, false, true
+						for _, a := range call.Call.Args {
+							u, l := ul(a, d+1)
+							anyUp, allUp, anyLo, allLo = anyUp || u, allUp && u, anyLo || l, allLo && l
+						}
+						if b.Name() == "min" {
+							return anyUp, allLo
+						}
+						return allUp, anyLo
+					}
+				}
+				if !srcOf(v, e).HasField(loginPC) {
+					return true, true // a clamp value (MaxPoolCount)
+				}
+				return boundedIn(st, v, e, depth+1) == "", boundedIn(st, v, e, depth+1) == ""
+			}
+			if call, ok := engine.Unwrap(v).(*ssa.Call); ok {
+				if b, ok := call.Call.Value.(*ssa.Builtin); ok && (b.Name() == "min" || b.Name() == "max") && depth < 3 {
+					up, lo := ul(v, 0)
+					if !up {
+						return "the client's pool_count is used without having been found <= MaxPoolCount"
+					}
+					if !lo {
+						return "the client's pool_count is used without having been found >= 0"
+					}
+					return ""
+				}
+			}
 			src := srcOf(v, e)
 			if !src.HasField(loginPC) {
 				return "" // a clamp value (MaxPoolCount or a constant)
@@ -342,11 +379,13 @@ func runC11(c *engine.Ctx) {
 				n++
 				// the loop condition compares the induction variable with a load of Control.poolCount
 				okBound, found := false, "?"
-				if t, ok := h.Instrs[len(h.Instrs)-1].(*ssa.If); ok {
-					if bo, ok := t.Cond.(*ssa.BinOp); ok && (bo.Op == token.LSS || bo.Op == token.LEQ) {
-						src := engine.Provenance(bo.Y, engine.ProvOpts{})
-						found = src.Summary()
-						okBound = bo.Op == token.LSS && src.HasField(pcF) && !src.HasField(loginPC) && len(src.Calls) == 0
+				if by, ok := engine.LoopBound(h); ok { // `i < poolCount` or `range poolCount`
+					src := engine.Provenance(by, engine.ProvOpts{})
+					found = src.Summary()
+					okBound = src.HasField(pcF) && !src.HasField(loginPC) && len(src.Calls) == 0
+				} else if t, ok := h.Instrs[len(h.Instrs)-1].(*ssa.If); ok {
+					if bo, ok := t.Cond.(*ssa.BinOp); ok {
+						found = engine.Provenance(bo.Y, engine.ProvOpts{}).Summary() + " with " + bo.Op.String()
 					}
 				}
 				c.Check(okBound, "server.Control.Start>advance-requests", in.Pos(), 2, []string{"loop bound: " + found},
@@ -366,15 +405,11 @@ func runC11(c *engine.Ctx) {
 			n++
 			h := engine.LoopHeader(w.Block())
 			okBound := false
-			if h != nil {
-				if t, ok := h.Instrs[len(h.Instrs)-1].(*ssa.If); ok {
-					if bo, ok := t.Cond.(*ssa.BinOp); ok && bo.Op == token.LSS {
-						src := engine.Provenance(bo.Y, engine.ProvOpts{})
-						if add, ok := bo.Y.(*ssa.BinOp); ok && add.Op == token.ADD {
-							if k, ok := engine.ConstInt(add.Y); ok && k == 1 && src.HasField(bpc) {
-								okBound = true
-							}
-						}
+			if by, ok := engine.LoopBound(h); ok { // `i < B` or `range B`
+				src := engine.Provenance(by, engine.ProvOpts{})
+				if add, ok := by.(*ssa.BinOp); ok && add.Op == token.ADD {
+					if k, ok := engine.ConstInt(add.Y); ok && k == 1 && src.HasField(bpc) {
+						okBound = true
 					}
 				}
 			}
@@ -617,46 +652,7 @@ func runC11(c *engine.Ctx) {
 	checkWrapperCloseFns(c, "R11")
 
 	// ---- R12 a user connection parked in a group's hand-off is released when the group goes away ----
-	c.Rule("R12", "TCPGroup / TCPMuxGroup.CloseListener close the hand-off channel on the path where the last member left: the group worker blocked in the hand-off send is woken (recovered send) and closes the user connection")
-	n12 := 0
-	for _, sym := range []string{"server/group.TCPGroup.CloseListener", "server/group.TCPMuxGroup.CloseListener"} {
-		f := fn(c, sym)
-		if f == nil {
-			continue
-		}
-		n12++
-		recv := f.Params[0]
-		c.AllPaths(sym+">wakes-worker", engine.PathCheck{Fn: f, Sink: engine.IsReturn,
-			Event: func(in ssa.Instruction) string {
-				if call, ok := in.(ssa.CallInstruction); ok {
-					if _, isDefer := in.(*ssa.Defer); isDefer {
-						return ""
-					}
-					if b, ok := call.Common().Value.(*ssa.Builtin); ok && b.Name() == "close" {
-						if _, isChan := call.Common().Args[0].Type().Underlying().(*types.Chan); isChan {
-							// the group's own channel (also when the teardown was moved into a method of the group)
-							if _, base := engine.LoadedField(call.Common().Args[0]); base != nil && types.Identical(base.Type(), recv.Type()) {
-								return "close-chan"
-							}
-						}
-					}
-				}
-				return ""
-			},
-			Pred: func(st *engine.PathState) string {
-				for _, l := range st.Lits {
-					if arg, ok := lenIsZero(l); ok {
-						if lf, b := engine.LoadedField(arg); lf != nil && b == ssa.Value(recv) {
-							if _, isSl := lf.Type().Underlying().(*types.Slice); isSl && !st.HasEvent("close-chan") {
-								return "the last member left without closing the group's hand-off channel: a user connection parked in the hand-off is never bridged and never closed"
-							}
-						}
-					}
-				}
-				return ""
-			}}, "last leave closes the hand-off channel")
-	}
-	c.Floor(n12, 2)
+	checkLastLeaveWakes(c, "R12")
 
 	// ---- R13 the announced source address is the user's, whatever its family ----
 	c.Rule("R13", "outside the NAT-hole package no network literal restricts the address family (tcp4/tcp6/udp4/udp6): the user's address announced in StartWorkConn is resolved with \"tcp\" / \"udp\" (an IPv6 user would be announced with an empty address)")
@@ -751,4 +747,49 @@ func runC11(c *engine.Ctx) {
 		})
 		c.Floor(k, 1)
 	}
+}
+
+// checkLastLeaveWakes (C11.R12, shared with C10.R17): the last member leaving a tcp / tcpmux group closes the group's
+// hand-off channel, which is what wakes the group worker blocked in the hand-off send.
+func checkLastLeaveWakes(c *engine.Ctx, rule string) {
+	c.Rule(rule, "TCPGroup / TCPMuxGroup.CloseListener close the hand-off channel on the path where the last member left: the group worker blocked in the hand-off send is woken (recovered send) and closes the user connection")
+	n12 := 0
+	for _, sym := range []string{"server/group.TCPGroup.CloseListener", "server/group.TCPMuxGroup.CloseListener"} {
+		f := fn(c, sym)
+		if f == nil {
+			continue
+		}
+		n12++
+		recv := f.Params[0]
+		c.AllPaths(sym+">wakes-worker", engine.PathCheck{Fn: f, Sink: engine.IsReturn,
+			Event: func(in ssa.Instruction) string {
+				if call, ok := in.(ssa.CallInstruction); ok {
+					if _, isDefer := in.(*ssa.Defer); isDefer {
+						return ""
+					}
+					if b, ok := call.Common().Value.(*ssa.Builtin); ok && b.Name() == "close" {
+						if _, isChan := call.Common().Args[0].Type().Underlying().(*types.Chan); isChan {
+							// the group's own channel (also when the teardown was moved into a method of the group)
+							if _, base := engine.LoadedField(call.Common().Args[0]); base != nil && types.Identical(base.Type(), recv.Type()) {
+								return "close-chan"
+							}
+						}
+					}
+				}
+				return ""
+			},
+			Pred: func(st *engine.PathState) string {
+				for _, l := range st.Lits {
+					if arg, ok := lenIsZero(l); ok {
+						if lf, b := engine.LoadedField(arg); lf != nil && b == ssa.Value(recv) {
+							if _, isSl := lf.Type().Underlying().(*types.Slice); isSl && !st.HasEvent("close-chan") {
+								return "the last member left without closing the group's hand-off channel: a user connection parked in the hand-off is never bridged and never closed"
+							}
+						}
+					}
+				}
+				return ""
+			}}, "last leave closes the hand-off channel")
+	}
+	c.Floor(n12, 2)
 }
